@@ -4,12 +4,14 @@ import (
 	"context"
 	"io"
 	"net"
+	"time"
 
 	"github.com/gobwas/ws"
 	"github.com/gobwas/ws/wsutil"
 	"google.golang.org/grpc"
 	"google.golang.org/grpc/codes"
 	"google.golang.org/grpc/metadata"
+	"google.golang.org/grpc/stats"
 	"google.golang.org/grpc/status"
 	"google.golang.org/protobuf/encoding/protojson"
 	"google.golang.org/protobuf/proto"
@@ -25,6 +27,7 @@ type streamWS struct {
 	trailer    metadata.MD
 	params     params
 	maxRecv    int // maximum size of a received message
+	stats      stats.Handler
 	recvN      int
 	sendN      int
 	sentHeader bool
@@ -76,6 +79,9 @@ func (s *streamWS) SendMsg(v interface{}) error {
 	if err := wsutil.WriteServerMessage(s.conn, ws.OpText, b); err != nil {
 		return err
 	}
+	if sh := s.stats; sh != nil {
+		sh.HandleRPC(s.ctx, outPayload(false, msg, b, time.Now()))
+	}
 	return nil
 }
 
@@ -110,6 +116,9 @@ func (s *streamWS) RecvMsg(m interface{}) error {
 		// What marshalling options should we support?
 		if err := protojson.Unmarshal(b, msg); err != nil {
 			return err
+		}
+		if sh := s.stats; sh != nil {
+			sh.HandleRPC(s.ctx, inPayload(false, msg, b, time.Now()))
 		}
 	} else if s.recvN > 1 {
 		return io.EOF // without a body the URL is the only request message
